@@ -303,8 +303,13 @@ func RunConc(sc *ConcScenario, want Want) *ConcResult {
 		stalled := false
 		if ph.Stall != nil && ph.Stall.Task < len(tasks) {
 			tasks[ph.Stall.Task].StallAt = ph.Stall.AtStep
-			stalled = true
-			sim.EndEarly = true
+			if ph.Stall.Resume {
+				// a long but finite stall: released when nobody else can move
+				tasks[ph.Stall.Task].StallResume = true
+			} else {
+				stalled = true
+				sim.EndEarly = true
+			}
 		}
 		for _, d := range ph.Delays {
 			if d.Task < len(tasks) {
@@ -625,6 +630,7 @@ func (res *ConcResult) collect(sim *simrt.Sim, w *World) {
 	res.probe("ticks_sent", int(sim.TicksSent))
 	res.probe("ticks_dropped", int(sim.TicksDrop))
 	res.probe("stalls_fired", int(sim.StallsFired))
+	res.probe("stalls_resumed", int(sim.StallsResumed))
 	res.probe("delays_fired", int(sim.DelaysFired))
 	if w.m != nil {
 		if st, ok := bridge.StatsOf(w.m.Raw()); ok {
@@ -992,7 +998,7 @@ func qualifiesAsRead(k OpKind) bool {
 
 func (res *ConcResult) checkReaders(recs []*Rec, phase int, sc *ConcScenario, tasks []*simrt.Task, aborted bool) {
 	ph := &sc.Phases[phase]
-	if ph.Stall == nil {
+	if ph.Stall == nil || ph.Stall.Resume {
 		return
 	}
 	victim := tasks[ph.Stall.Task]
